@@ -254,6 +254,9 @@ func c02Program(t *rapid.T, ev *evProp, si *scalarImpl) {
 					history = append(history, desc)
 					fail(op, "SetBytes modified its input slice: %x -> %x", in, b)
 				}
+				for j := range b { // the slice is the caller's again: the scalar must not have kept it
+					b[j] ^= 0xff
+				}
 				if ret != regs[r] {
 					// value semantics are C05's business; here only the value matters
 					_ = ret
